@@ -33,6 +33,9 @@ def seeds() -> list[str]:
         # fixture format:  title \n . \n src \n . \n html \n .
         for m in re.finditer(r"\n\.\n(.*?)\n\.\n(.*?)\n\.\n", "\n" + txt, flags=re.S):
             out.append(m.group(1) + "\n")
+    # branches of the implementation that no spec example or fixture reaches (measured with coverage.py)
+    out += ['![a](/u "t"  \n', '![a](/u "t" x)\n', '![foo][bar\n\n[foo]: /u\n', '![foo][]\n\n[foo]: /u\n', '![foo] [bar]\n\n[foo]: /u\n',
+            '[a]: /u "t" x\n\n[a]\n', "[a]: /u 't'   \n\n[a]\n", '[a](/u "t"  \n', "007. james\n008. bond\n"]
     if not out:
         out = ["# a\n\n*b* `c`\n\n- d\n> e\n"]
     # de-duplicate, keep order
